@@ -6,7 +6,6 @@ Oracle: vlib/refs/idl_builtins.py - direct transcriptions of the IDL definitions
 math.fsum, sorted-window medians, run scanning, exact integer pixel positions + long double / integer
 interval arithmetic for REBIN).
 """
-import math
 import numpy as np
 from vlib.harness import Check, np_rng
 from vlib.refs import idl_builtins as R
@@ -68,10 +67,10 @@ def _first_bad(mask):
 
 class C14(Check):
     ID = 'C14'
-    RULE = ('smooth: float64/float32 arrays of length 1-64 (normal at several scales, ties, constants, ramps, '
-            'spikes), every width 1..N even and odd, with and without edge truncation; median: whole-array '
-            '1-D/2-D with and without `even`, running 1-D (N 1-64) and 2-D (1-10 x 1-10, non-square) with every '
-            'odd width that fits; uniq: ascending (some descending) int/float arrays built from runs incl. '
+    RULE = ('smooth: float64/float32 arrays of length 1-64 (thorough: 1-160; normal at several scales, ties, '
+            'constants, ramps, spikes), every width 1..N even and odd, with and without edge truncation; median: '
+            'whole-array 1-D/2-D with and without `even`, running 1-D (N 1-64, thorough 1-160) and 2-D (1-10 x 1-10, '
+            'thorough 1-16 x 1-16, non-square) with every odd width that fits; uniq: ascending (some descending) int/float arrays built from runs incl. '
             'constant and length-1 arrays, and unsorted arrays with every kind of sorting index (random '
             'tie order, int32/int64, reversed/random permutations of constant arrays); rebin: 1-3-D, all 39 '
             'expand/keep/shrink combinations cycled by index, factors /2../8 and x2..x64, float64/float32/'
@@ -84,8 +83,8 @@ class C14(Check):
                    'mean |x| over the window (smooth), max |x| of the input (rebin), max of the two middle values '
                    '(median /EVEN); untouched edges, medians, uniq subscripts and rebin /SAMPLE picks are compared exactly',
                    'integer dtypes without /SAMPLE: each axis may return any integer within 1 (inclusive) of the exact '
-                   'rational value (DESIGN C14), propagated as intervals across axes; shrinking a constant block or '
-                   'copying is exact',
+                   'rational value (DESIGN C14), propagated as intervals across axes; copies (unchanged axis, '
+                   'clamped tail beyond the last sample, output pixel 0) are exact',
                    'domain: finite values, widths <= N (the made-odd width may be N+1), odd median widths <= smallest '
                    'dimension, requested dimensions >= 1, |int64 data| <= 2^40',
                    'uniq with an index on a constant array is read literally: the subscript of the last element in '
